@@ -1061,6 +1061,13 @@ func DecodeCashAddress(str string) (string, []byte, error) {
 		values[i] = byte(CharsetRev[c])
 	}
 
+	// The data part must at least hold the 8 checksum symbols.  Without this
+	// check a short string whose "checksum" overlaps the prefix can verify,
+	// and slicing off the checksum below would panic.
+	if len(values) < 8 {
+		return "", nil, errors.New("address too short")
+	}
+
 	// Verify the checksum.
 	if !verifyChecksum(prefix, values) {
 		return "", nil, ErrChecksumMismatch
